@@ -81,6 +81,14 @@ Section Rules2.
     unfold env_body_state in B. rewrite B. reflexivity.
   Qed.
 
+  (** ** the specials call parser *)
+  Lemma rule_tcall_spc n ps chars p0 pe sp l al p :
+    sp_args sp = APStd l ->
+    R n (TArgs ps l [] pe) = Ok (OArgs (Some ([], al))) p ->
+    R (S n) (TCall ps (mk TkSpecials chars p0 pe [] []) sp pe)
+    = Ok (ONode (Some (NSpecials p0 p (ps_mode ps) chars (Some (map a_spec l, al))))) p.
+  Proof. intros A H. cbn [run]. rewrite A, H. reflexivity. Qed.
+
   (** ** the body of an environment *)
   Definition env_opts (name : str) : genopts :=
     {| g_stop := SEndEnv name; g_nl := NLNone; g_require := true;
